@@ -9,21 +9,37 @@ def register(PROPS):
                  'YEARLY/MONTHLY in thorough) with value menus covering single, multiple, negative, ordinal and boundary values x COUNT/UNTIL '
                  'terminations x 8-18 DTSTART phases) is rendered as an event, pushed through the real parser, popped, and compared element by '
                  'element (first 200 occurrences inside a per-FREQ window) with an independent evaluator written from RFC 5545 3.3.10; the same '
-                 'event is also consumed peek,peek,pop like echsd does.  Complete within that grammar.',
-        'note': 'Trusted: harness/ref/rfc5545.h (membership test + scan, shares no code with evrrul.c).  Only synchronised DTSTARTs, WKST=MO, '
+                 'event is also consumed peek,peek,pop like echsd does.  Complete within that grammar.  Two further families with their '
+                 'own enumerations: (setposmix) YEARLY/MONTHLY rules whose candidate sets differ in size between periods (4/5 weekdays of a '
+                 'month, 27-29 February, 52/53 Mondays of a year, ...) x BYSETPOS lists mixing a positive position that only some periods '
+                 '(or none) have with negative ones; (unsync) FREQ=MONTHLY;INTERVAL=n;BYMONTH=... [+BYMONTHDAY|BYDAY] with the DTSTART '
+                 'given, not derived, so that DTSTART\'s month need not be listed and INTERVAL (incl. n > 12) is counted from DTSTART\'s '
+                 'month: the members after DTSTART must be the RFC\'s.',
+        'note': 'Trusted: harness/ref/rfc5545.h (membership test + scan, shares no code with evrrul.c).  Only synchronised DTSTARTs (except '
+                'the unsync family, where only what follows DTSTART is judged), WKST=MO, '
                 'cases where two BYSETPOS readings differ are skipped and counted.  The rule language is infinite; the claim is the grammar.',
         'rule': 'case = (rule text, termination, DTSTART); DTSTART is the first member at or after an anchor, deduplicated per rule, so every '
                 'case is a distinct text; non-trivial = the reference lists >= 2 occurrences in the window',
         'bound': {
-            'quick': 'BY-part subsets of size <= 2, INTERVAL {1,2}, 8 anchors, terminations {none, COUNT 2, COUNT 65, UNTIL on 4th}',
+            'quick': 'BY-part subsets of size <= 2, INTERVAL {1,2}, 8 anchors, terminations {none, COUNT 2, COUNT 65, UNTIL on 4th}; '
+                     'setposmix: 13 base rules x 9 BYSETPOS lists x INTERVAL {1,2} x 8 anchors x the same terminations; '
+                     'unsync: 7 BYMONTH lists x 6 second parts x INTERVAL {1,2,3,5,7,11,12,13,14,17,18,24,25,30} x 8 given DTSTARTs x '
+                     '{none, UNTIL on 4th}, 40-year window',
             'thorough': 'subsets <= 2 (+ size-3 date-part subsets for YEARLY/MONTHLY), INTERVAL {1,2,3,7}, 18 anchors, terminations '
-                        '{none, COUNT 1,2,63,64,65,130, UNTIL on / just before the 4th occurrence}',
+                        '{none, COUNT 1,2,63,64,65,130, UNTIL on / just before the 4th occurrence}; setposmix: INTERVAL {1,2,3,7}, 18 anchors, '
+                        'all terminations; unsync: 18 given DTSTARTs, {none, UNTIL on / just before the 4th}',
         },
         'drivers': [
             D('c01_rrule', ['maxparts=2', 'intervals=1,2', 'anchors=8', 'terms=quick', '--case-timeout', '2'],
               ['maxparts=2', 'date3=1', 'intervals=1,2,3,7', 'anchors=18', 'terms=full', '--case-timeout', '2'], label='grammar'),
+            D('c01_rrule', ['mode=setposmix', 'intervals=1,2', 'anchors=8', 'terms=quick', '--case-timeout', '2'],
+              ['mode=setposmix', 'intervals=1,2,3,7', 'anchors=18', 'terms=full', '--case-timeout', '2'], label='setposmix'),
+            D('c01_rrule', ['mode=unsync', 'intervals=1,2,3,5,7,11,12,13,14,17,18,24,25,30', 'anchors=8', 'terms=quick', '--case-timeout', '2'],
+              ['mode=unsync', 'intervals=1,2,3,5,7,11,12,13,14,17,18,24,25,30', 'anchors=18', 'terms=full', '--case-timeout', '2'], label='unsync'),
         ],
-        'assumptions': ['DTSTART is a member of its own rule (RFC 3.8.5.3 leaves the other case undefined)', 'WKST=MO',
+        'assumptions': ['DTSTART is a member of its own rule (RFC 3.8.5.3 leaves the other case undefined); in the unsync family a DTSTART '
+                        'that is no member may or may not be delivered first, COUNT is not used there, and what follows must be the members '
+                        'of the rule in the months DTSTART\'s month + k*INTERVAL', 'WKST=MO',
                         'no BYWEEKNO without BYDAY, no ordinal BYDAY with BYWEEKNO/BYMONTHDAY/BYYEARDAY, years 1902-2098',
                         'BYSETPOS cases where counting positions over the whole first period or only from DTSTART differ are left out'],
     }
